@@ -375,11 +375,16 @@ def run_check(pid, tier, seed, jobs):
         harness_errors.append("seed %s: %s" % (e["seed"], e["message"]))
         if e.get("traceback"):
             harness_errors.append(e["traceback"])
+    shrink_deadline = time.time() + float(os.environ.get("VERIF_SHRINK_S", "150"))
     for fp, v in sorted(groups.items()):
         if fp in known_fps:
             known_hit[fp] = sum(1 for x in agg["violations"] if tuple(x["fingerprint"]) == fp)
             continue
-        sparse, nshrink = shrink(mod, v["seed"], v["choices"], fp)
+        left = shrink_deadline - time.time()
+        if left > 5 and len(new_violations) < 12:
+            sparse, nshrink = shrink(mod, v["seed"], v["choices"], fp, budget_s=min(60.0, left))
+        else:
+            sparse, nshrink = v["choices"], 0      # overall minimisation budget used up: report unshrunk
         r = run_one(mod, v["seed"], replay=replay_dict(sparse), lenient=True, keep_trace=True)
         if not same_violation(r, fp):
             # fall back to the unshrunk log
